@@ -25,7 +25,7 @@ theorem sinkStar_mono {b b' : SinkV} (h : Star SinkStep b b') :
 
 /-- `shut_read` on the socket side and `shut_write` on the mux side never go back along source
 transitions of a handler that exists. -/
-theorem srcStar_mono {c : Nat} {a a' : SrcV} (h : Star (SrcStep c) a a') (hev : a.ever = true) :
+theorem srcStar_mono {c : Nat} {k : Bool} {a a' : SrcV} (h : Star (SrcStep c k) a a') (hev : a.ever = true) :
     a'.ever = true ∧ (a.shutR = true → a'.shutR = true) ∧ (a.mwShutW = true → a'.mwShutW = true) := by
   induction h with
   | refl => exact ⟨hev, id, id⟩
@@ -35,12 +35,12 @@ theorem srcStar_mono {c : Nat} {a a' : SrcV} (h : Star (SrcStep c) a a') (hev : 
     | consume x hp hr => exact ⟨i0, i1, i2⟩
     | send moved rest hb hne hp => exact ⟨i0, i1, i2⟩
     | eof hp hb hr hw => exact ⟨i0, i1, fun _ => rfl⟩
-    | stopFrame hp => exact ⟨i0, i1, i2⟩
+    | stopFrame hp hs => exact ⟨i0, i1, i2⟩
     | foreign fr hf => exact ⟨i0, i1, i2⟩
-    | discard hp => exact ⟨i0, fun _ => rfl, i2⟩
-    | flags r w hr hw => exact ⟨i0, fun h => hr (i1 h), fun h => hw (i2 h)⟩
-    | remove hp => exact ⟨i0, i1, i2⟩
-    | create he r => rw [i0] at he; cases he
+    | discard hp hw' => exact ⟨i0, fun _ => rfl, i2⟩
+    | flags r w os hr hw hos hk => exact ⟨i0, fun h => hr (i1 h), fun h => hw (i2 h)⟩
+    | remove hp hb => exact ⟨i0, i1, i2⟩
+    | create he r os hos => rw [i0] at he; cases he
 
 /-- What one whole callback never undoes. -/
 theorem callback_mono (p : ProxyS) (m : MuxL) (e : ESock) (io : CbIo) (p' : ProxyS) (m' : MuxL) (e' : ESock)
